@@ -36,9 +36,6 @@ int g_mode;              /* 0: handler stubs are the sink, 1: ldb_memtable_add i
 ldb_handler_t *g_h;      /* mode 0: the handler object                       */
 ldb_memtable_t *g_mt;    /* mode 1: the memtable                             */
 uint64_t g_seq0;         /* mode 1: sequence stored in the batch header      */
-/* ghost index: the g_want-th delivered record is remembered                 */
-int g_want; int g_got; int g_got_type; const uint8_t *g_got_key; size_t g_got_klen;
-const uint8_t *g_got_val; size_t g_got_vlen; uint64_t g_got_seq;
 
 /* assert, then continue only on the good path (keeps later reads defined) */
 #define SPEC_REQ(c, msg) __CPROVER_assert(c, msg); __CPROVER_assume(c)
@@ -77,7 +74,7 @@ static int spec_rec_bad(const uint8_t *rep, size_t p, size_t n) {
 }
 
 /* one record delivered to the sink */
-static void spec_on_record(int type, const ldb_slice_t *key, const ldb_slice_t *value, uint64_t seq) {
+static void spec_on_record(int type, const ldb_slice_t *key, const ldb_slice_t *value) {
   size_t p = g_pos, l1, l2 = 0, q;
   SPEC_REQ(p >= 12 && p < g_n, "batch: a record is delivered only while unread bytes remain after the 12-byte header");
   SPEC_REQ(g_rep[p] == type, "batch format: tag byte 1 = put (kTypeValue), 0 = delete (kTypeDeletion) decides the callback");
@@ -95,10 +92,6 @@ static void spec_on_record(int type, const ldb_slice_t *key, const ldb_slice_t *
     SPEC_REQ(value->data == g_rep + q + l2, "batch format: value bytes follow their length prefix (pointer into rep)");
     q = q + l2 + value->size;
   }
-  if (g_calls == g_want) {
-    g_got = 1; g_got_type = type; g_got_key = key->data; g_got_klen = key->size; g_got_seq = seq;
-    g_got_val = type == 1 ? value->data : NULL; g_got_vlen = type == 1 ? value->size : 0;
-  }
   g_pos = q;
   g_calls++;
 }
@@ -106,12 +99,12 @@ static void spec_on_record(int type, const ldb_slice_t *key, const ldb_slice_t *
 static void stub_put(ldb_handler_t *h, const ldb_slice_t *key, const ldb_slice_t *value) {
   __CPROVER_assert(g_mode == 0 && h == g_h, "batch_iterate: callbacks receive the caller's handler");
   __CPROVER_assert(__CPROVER_r_ok(key, sizeof(*key)) && __CPROVER_r_ok(value, sizeof(*value)), "batch_iterate: put gets readable key and value slices");
-  spec_on_record(1, key, value, 0);
+  spec_on_record(1, key, value);
 }
 static void stub_del(ldb_handler_t *h, const ldb_slice_t *key) {
   __CPROVER_assert(g_mode == 0 && h == g_h, "batch_iterate: callbacks receive the caller's handler");
   __CPROVER_assert(__CPROVER_r_ok(key, sizeof(*key)), "batch_iterate: del gets a readable key slice");
-  spec_on_record(0, key, NULL, 0);
+  spec_on_record(0, key, NULL);
 }
 
 /* memtable sink of ldb_batch_insert_into */
@@ -126,9 +119,13 @@ void ldb_memtable_add(ldb_memtable_t *mt, ldb_seqnum_t sequence, ldb_valtype_t t
   __CPROVER_assert(__CPROVER_r_ok(key, sizeof(*key)) && __CPROVER_r_ok(value, sizeof(*value)), "batch_insert_into: key and value slices readable");
   if (type == LDB_TYPE_DELETION)
     __CPROVER_assert(value->size == 0, "batch_insert_into: a deletion is inserted with an empty value");
-  spec_on_record(type == LDB_TYPE_VALUE ? 1 : 0, key, value, sequence);
+  spec_on_record(type == LDB_TYPE_VALUE ? 1 : 0, key, value);
 }
 
+/* units that inline the real length-prefixed-slice reader instead of using its contract */
+#ifdef BAT_INLINE_SLICE
+#include "util/slice.c"
+#endif
 #include "write_batch.c"
 
 /* =================================================================== iter */
@@ -143,8 +140,8 @@ int c_batch_iterate(const ldb_batch_t *batch, ldb_handler_t *handler)
 __CPROVER_requires(BATCH_OK(batch) && __CPROVER_r_ok(handler, sizeof(*handler)))
 __CPROVER_requires(batch->rep.size <= BATCH_MAX_BYTES)
 __CPROVER_requires(handler->put == stub_put && handler->del == stub_del)
-__CPROVER_requires(g_mode == 0 && g_h == handler && g_rep == batch->rep.data && g_n == batch->rep.size && g_pos == 12 && g_calls == 0 && g_got == 0)
-__CPROVER_assigns(g_pos, g_calls, g_got, g_got_type, g_got_key, g_got_klen, g_got_val, g_got_vlen, g_got_seq)
+__CPROVER_requires(g_mode == 0 && g_h == handler && g_rep == batch->rep.data && g_n == batch->rep.size && g_pos == 12 && g_calls == 0)
+__CPROVER_assigns(g_pos, g_calls)
 /* every outcome */
 __CPROVER_ensures(__CPROVER_return_value == LDB_OK || __CPROVER_return_value == LDB_CORRUPTION)
 __CPROVER_ensures(g_n < 12 ==> (__CPROVER_return_value == LDB_CORRUPTION && g_calls == 0))
@@ -157,13 +154,29 @@ __CPROVER_ensures((__CPROVER_return_value == LDB_CORRUPTION && g_n >= 12) ==>
 
 void h_iterate(void) {
   ldb_batch_t b; ldb_handler_t h; int r;
-  IN_SIZE(in_n); IN_U64(in_number); IN_INT(in_want);
+  IN_SIZE(in_n); IN_U64(in_number);
   IN_BUF(buf, in_n); SNAP_BUF(buf, in_n);
   ASSUME(in_n <= BATCH_MAX_BYTES);
   b.rep.data = buf; b.rep.size = in_n; b.rep.alloc = in_n;
   h.state = NULL; h.number = in_number; h.put = stub_put; h.del = stub_del;
   g_mode = 0; g_h = &h; g_mt = NULL; g_seq0 = 0;
-  g_rep = buf; g_n = in_n; g_pos = 12; g_calls = 0; g_want = in_want; g_got = 0;
+  g_rep = buf; g_n = in_n; g_pos = 12; g_calls = 0;
+  r = ldb_batch_iterate(&b, &h);
+  CHECK(h.number == in_number && h.state == NULL, "batch_iterate: the handler object itself is not written");
+  CANARY();
+}
+
+/* bounded stand-in: rep of at most BAT_B bytes (<= (BAT_B-12)/2 records), record loop unwound */
+#define BAT_B 24
+void h_iterate_b(void) {
+  ldb_batch_t b; ldb_handler_t h; int r;
+  IN_SIZE(in_n); IN_U64(in_number);
+  IN_BUF(buf, in_n); SNAP_BUF(buf, in_n);
+  ASSUME(in_n <= BAT_B);
+  b.rep.data = buf; b.rep.size = in_n; b.rep.alloc = in_n;
+  h.state = NULL; h.number = in_number; h.put = stub_put; h.del = stub_del;
+  g_mode = 0; g_h = &h; g_mt = NULL; g_seq0 = 0;
+  g_rep = buf; g_n = in_n; g_pos = 12; g_calls = 0;
   r = ldb_batch_iterate(&b, &h);
   CHECK(h.number == in_number && h.state == NULL, "batch_iterate: the handler object itself is not written");
   CANARY();
